@@ -112,7 +112,7 @@ def run(ctx):
     if d["ok"]:
         raise core.Infra("short-read deviation violates nothing: invariants vacuous")
     ctx.extra["deviation_witnesses"] = {"short_read": d["violated"]}
-    r = tlc.check("MC_Framing.tla", "MC_Framing_export.cfg", workers=8, timeout=300)
+    r = tlc.check("MC_Framing.tla", "MC_Framing_export.cfg", workers=1, timeout=300)
     cutsets = tlc.leaves(r["out"])
     if len(cutsets) < 100:
         raise core.Infra("chunking export produced only %d patterns" % len(cutsets))
